@@ -1,9 +1,10 @@
 /-
   AHP.Model.Basic — shared, import-free vocabulary of the executable model.
 
-  Strings are `List Char` (`Str`).  ASCII-exact renderings of the Python `str` methods the library
-  uses (`lower`, `strip`, `split(' ')`, `startswith` …).  DESIGN §7: non-ASCII is generated only where
-  the code applies none of these.
+  Strings are `List Char` (`Str`).  Renderings of the Python `str` methods the library uses (`lower`,
+  `strip`, `split(' ')`, `startswith` …).  `strip`/`lstrip`/`rstrip` remove Python's full (Unicode) white
+  space, `isWs`; `lower` is ASCII-exact (DESIGN §7: non-ASCII letters are generated only where the code
+  applies no case mapping).
 -/
 namespace AHP
 
@@ -18,10 +19,20 @@ def lowerChar (c : Char) : Char :=
 
 def lower (s : Str) : Str := s.map lowerChar
 
-/-- The characters Python's `str.strip()`/`split()` treat as white space, ASCII part. -/
+/-- The ASCII part of Python's white space (`str.isspace()` on code points below 128): the six characters of C's
+    `isspace` and the four separators `\x1c`–`\x1f`. -/
+def isAsciiWs (c : Char) : Bool :=
+  c = ' ' || c = '\t' || c = '\n' || c = '\r' || c = '\x0b' || c = '\x0c'
+  || c = '\x1c' || c = '\x1d' || c = '\x1e' || c = '\x1f'
+
+/-- `str.isspace()` of one character (CPython 3.12, Unicode 15: bidirectional class WS/B/S or category Zs): exactly what
+    `str.strip()`, `lstrip()`, `rstrip()` and `split()` without an argument treat as white space.  Functions of the library
+    that name their blanks explicitly (`strip(' ')`, `split(' ')`, `[ \t]` in a regex, …) do not use this predicate. -/
 def isWs (c : Char) : Bool :=
   c = ' ' || c = '\t' || c = '\n' || c = '\r' || c = '\x0b' || c = '\x0c'
   || c = '\x1c' || c = '\x1d' || c = '\x1e' || c = '\x1f'
+  || c.toNat = 0x85 || c.toNat = 0xa0 || c.toNat = 0x1680 || (0x2000 ≤ c.toNat && c.toNat ≤ 0x200a)
+  || c.toNat = 0x2028 || c.toNat = 0x2029 || c.toNat = 0x202f || c.toNat = 0x205f || c.toNat = 0x3000
 
 def lstrip (s : Str) : Str := s.dropWhile isWs
 def rstrip (s : Str) : Str := (s.reverse.dropWhile isWs).reverse
